@@ -1,7 +1,8 @@
 ------------------------------ MODULE EmsSystem ------------------------------
 (***************************************************************************)
 (* The composed state machine: sessions that mix detection / binding,      *)
-(* copying, clipping (make mask, save / load mask, apply), selecting        *)
+(* copying, clipping (make mask, save / load mask, apply), selecting,       *)
+(* point lookups and single-cell selections on any view,                   *)
 (* variables, in-place modification, saving and reopening -- on datasets    *)
 (* DERIVED from one another.  The per-property modules decide each          *)
 (* operation in depth; this module decides that they compose: whatever     *)
@@ -155,6 +156,26 @@ Open(f) ==
   /\ objs' = Append(objs, files[f].view)
   /\ out' = [a |-> "Open", new |-> Len(objs) + 1] /\ UNCHANGED <<masks, files, convs>>
 
+\* ------------------------------------------------------------- questions asked of a view (no new dataset)
+\* position (0-based) of original cell n in view v, -1 if the view does not have it
+PosOfCell(v, n) == IF \E k \in 1..Len(v.cells) : v.cells[k] = n
+                   THEN (CHOOSE k \in 1..Len(v.cells) : v.cells[k] = n) - 1 ELSE -1
+\* point lookup with a point strictly inside original cell n (get_index_for_point through the accessor)
+Query(o, n) ==
+  /\ o \in Live /\ n \in ValidCells(B) /\ CanTouch(o)
+  /\ Log([a |-> "Query", obj |-> o, cell |-> n])
+  /\ objs' = Touched(o)[1] /\ convs' = Touched(o)[2]
+  /\ out' = [a |-> "Query", obj |-> o, pos |-> PosOfCell(objs[o], n)]
+  /\ UNCHANGED <<masks, files>>
+\* the data of one cell of a view (select_index with the native index of position pos)
+SelectCell(o, pos) ==
+  /\ o \in Live /\ pos \in 1..Len(objs[o].cells) /\ CanTouch(o)
+  /\ objs[o].vars # {}      \* (with no variable left on the grid the code refuses: isel finds no such dimension)
+  /\ Log([a |-> "SelectCell", obj |-> o, pos |-> pos])
+  /\ objs' = Touched(o)[1] /\ convs' = Touched(o)[2]
+  /\ out' = [a |-> "SelectCell", obj |-> o, pos |-> pos]
+  /\ UNCHANGED <<masks, files>>
+
 Next ==
   /\ Len(hist) < Depth /\ UNCHANGED B
   /\ \/ \E o \in Live : Access(o) \/ Copy(o) \/ Save(o) \/ Mutate(o, 1)
@@ -163,6 +184,8 @@ Next ==
      \/ \E f \in 1..MaxFiles : LoadMask(f) \/ Open(f)
      \/ \E o \in Live : \E m \in 1..MaxMasks : ApplyMask(o, m)
      \/ \E o \in Live : \E vs \in VarChoices : SelectVariables(o, vs)
+     \/ \E o \in Live : \E n \in ValidCells(B) : Query(o, n)
+     \/ \E o \in Live : \E pos \in 1..Len(objs[o].cells) : SelectCell(o, pos)
 Spec == Init /\ [][Next]_vars
 
 \* ------------------------------------------------------------- what a view shows
